@@ -287,7 +287,9 @@ func c11Round(j c11Job) *jobReport {
 	}
 	// A rogue (but authorized) server chooses which genuine GCA-signed entries it lists and in which order.
 	extra := mkScripted("SX", 9)
-	xe := func(b bool) server.AuthorizedServer { return signedServer(extra.Name, b, extra.Addr, extra.Port, gca.Priv) }
+	xe := func(b bool) server.AuthorizedServer {
+		return signedServer(extra.Name, b, extra.Addr, extra.Port, gca.Priv)
+	}
 	switch j.List {
 	case "xban-xauth":
 		list = append(list, xe(true), xe(false))
